@@ -123,3 +123,14 @@ impl Report {
         println!("{v}");
     }
 }
+
+/// Map over the cases on several threads, keeping the order of the results.
+pub fn par_map<T: Send + Sync, R: Send>(items: &[T], f: impl Fn(&T) -> R + Sync) -> Vec<R> {
+    let threads: usize = std::env::var("ZV_THREADS").ok().and_then(|s| s.parse().ok()).unwrap_or(12).max(1);
+    let chunk = items.len().div_ceil(threads).max(1);
+    let f = &f;
+    std::thread::scope(|s| {
+        let handles: Vec<_> = items.chunks(chunk).map(|c| s.spawn(move || c.iter().map(f).collect::<Vec<R>>())).collect();
+        handles.into_iter().flat_map(|h| h.join().expect("worker thread")).collect()
+    })
+}
